@@ -222,8 +222,9 @@ def native_first(ck, big=False, failing=False):
     return {"violated": False, "evaluations": out["evaluations"]}
 
 
-def processes_design(ck, b=None):
-    """worker processes receive a copy of the kernel object: the copy must carry the detector altitude of the original (33 km here)"""
+def processes_design(ck, b=None, cloud=False):
+    """worker processes receive a copy of the kernel object: the copy must carry the detector altitude of the original (33 km here);
+    cloud=True: and the cloud model of the batch (a uniform cloud at 4 km, which hides part of the light of low decays)"""
     import contextlib
     import io
 
@@ -236,14 +237,27 @@ def processes_design(ck, b=None):
     with np.errstate(all="ignore"), contextlib.redirect_stdout(io.StringIO()):
         mp_ = 9
         sub = [x[:mp_].copy() for x in b]
-        want = [CphotAng(33.0).run(*[x[j] for x in sub], None) for j in range(mp_)]
+        cf = None
+        if cloud:
+            from nuspacesim.config import NssConfig, Simulation
+            from nuspacesim.simulation.atmosphere.clouds import CloudTopHeight
+
+            ccfg = NssConfig()
+            ccfg.simulation.cloud_model = Simulation.MonoCloud(altitude=4.0)
+            cf = CloudTopHeight(ccfg)
+            sub[1] = np.linspace(0.5, 6.0, mp_)  # decays below and above the cloud top
+        want = [CphotAng(33.0).run(*[x[j] for x in sub], cf) for j in range(mp_)]
         wd, wa = np.asarray([r[0] for r in want]), np.array([r[1] for r in want])
+        if cloud:
+            nocloud = np.asarray([CphotAng(33.0).run(*[x[j] for x in sub], None)[0] for j in range(mp_)])
+            if np.array_equal(nocloud, wd, equal_nan=True):
+                return [{"obligation": "bounded.schedulers", "clause": "design self-check: the cloud model of the design hides light", "input": {"cloud top": 4.0}, "observed": "no event is affected by the cloud"}]
         try:
             with dask.config.set(scheduler="processes", num_workers=2):
-                d, a = CphotAng(33.0)(*[x.copy() for x in sub], None)
+                d, a = CphotAng(33.0)(*[x.copy() for x in sub], cf)
             if not (np.array_equal(np.asarray(d), wd, equal_nan=True) and np.array_equal(np.asarray(a), wa, equal_nan=True)):
                 fails.append({"obligation": "bounded.schedulers", "clause": "batch == [run(x) for x in batch] under the multi-process scheduler for a detector away from the reference orbit (worker copies carry the detector altitude)",
-                              "input": {"scheduler": "processes", "num_workers": 2, "events": mp_, "detector_altitude": 33.0, "seed": ck.seed}, "observed": {"batch": np.asarray(d, float)[:3].tolist(), "one-at-a-time": wd[:3].tolist()}})
+                              "input": {"scheduler": "processes", "num_workers": 2, "events": mp_, "detector_altitude": 33.0, "seed": ck.seed, "cloud model": "uniform cloud at 4 km" if cloud else None}, "observed": {"batch": np.asarray(d, float)[:3].tolist(), "one-at-a-time": wd[:3].tolist()}})
         except Exception as ex:
             fails.append({"obligation": "bounded.schedulers", "clause": "the batch evaluates under the multi-process scheduler", "input": {"scheduler": "processes", "detector_altitude": 33.0}, "observed": "raised %r" % ex})
     return fails
@@ -321,7 +335,25 @@ def bounded(ck, big=False):
             if not same:
                 fails.append({"obligation": "bounded.batch_sizes", "clause": "a batch whose per-event arrays have different element types == [run(x) for x in zip(arrays)], value for value",
                               "input": {"events": m_, "detector_altitude": 33.0, "element types": mname, "seed": ck.seed}, "observed": obs})
+        # events whose density is not a finite number (showers within 1e-4 deg of the vertical): the batch reports what run() returns, bit for bit
+        bb_v, aa_v = np.array([0.3, np.radians(89.9999), 0.5, np.radians(89.9999)]), np.array([2.0, 0.0, 2.0, 2.0])
+        ee_v, zz_v = np.array([1.0, 1.0, 3.0, 0.5]), np.zeros(4)
+        nev += 4
+        try:
+            kv = CphotAng(525.0)
+            want = [kv.run(bb_v[j], aa_v[j], ee_v[j], zz_v[j], zz_v[j], None) for j in range(4)]
+            wd, wa = np.asarray([r[0] for r in want], dtype=float), np.asarray([r[1] for r in want], dtype=float)
+            with dask.config.set(scheduler="synchronous"):
+                d, a = kv(bb_v.copy(), aa_v.copy(), ee_v.copy(), zz_v.copy(), zz_v.copy(), None)
+            d, a = np.asarray(d, dtype=float), np.asarray(a, dtype=float)
+            if not (d.shape == wd.shape and np.array_equal(d, wd, equal_nan=True) and np.array_equal(a, wa, equal_nan=True)):
+                fails.append({"obligation": "bounded.batch_sizes", "clause": "a batch containing events whose result is not a finite number == [run(x) for x in batch], bit for bit (NaN stays NaN)",
+                              "input": {"beta_deg": np.degrees(bb_v).tolist(), "altitude": aa_v.tolist(), "detector_altitude": 525.0}, "observed": {"batch": [repr(float(x)) for x in d], "one-at-a-time": [repr(float(x)) for x in wd]}})
+        except Exception as ex:
+            fails.append({"obligation": "bounded.batch_sizes", "clause": "a batch containing near-vertical showers is evaluated like its events one at a time", "input": {"beta_deg": np.degrees(bb_v).tolist()}, "observed": "raised %r" % ex})
         fails.extend(processes_design(ck, b))
+        nev += 9
+        fails.extend(processes_design(ck, b, cloud=True))
         nev += 9
         # a single failing event surfaces as an error of the batch call
 
